@@ -404,7 +404,8 @@ def rule_K_CAPTURE(ctx, repo):
             if f.name not in names and not pair:
                 continue
             n += 1
-            extra = [x.arg for x in f.args.posonlyargs + f.args.args if x.arg not in ('self', 'func', 'ignored')] + [x.arg for x in f.args.kwonlyargs]
+            # positional-only parameters (`def _round(tol, /, *args, **kwds)`) cannot be bound by keyword: a user keyword of that name lands in **kwds
+            extra = [x.arg for x in f.args.args if x.arg not in ('self', 'func', 'ignored')] + [x.arg for x in f.args.kwonlyargs]
             ctx.ob('K-CAPTURE', None, not extra)
             if extra:
                 ctx.fail('K-CAPTURE', '%s::%s' % (m.rel, f.name), 'named parameter %s captures a user keyword' % ', '.join(extra),
@@ -1068,3 +1069,87 @@ def rule_V(ctx, repo):
                 ctx.fail('V-NOCALL', isv.qual, 'unguarded evaluation of the function',
                          'isvalid evaluates func(*args, **kwds) on a path that is not guarded by a test on the error validate raised ("is not a Python function"): '
                          'validity of Python functions must be decided without calling them', '%s:%d' % (m.rel, s.lineno))
+
+
+def rule_G_SELFDROP(ctx, repo):
+    """G-VAL (an argument is cut out of the key only when the specification selects *it*).  _keygen removes the first positional argument (instead of
+    masking it) when it is the bound instance and its parameter is ignored.  The statement that drops the head of the positional arguments
+    (`args = args[1:]`) must be guarded - as a conjunct of the conditions on the way to it - by a membership test of the first parameter's own name
+    (`names[0] in ignored`) or index: a guard that is also satisfied by something else (an `or` alternative, a marker string) drops an argument the
+    specification does not select, and calls that differ in it share a key."""
+    m = repo.mod('_inspect')
+    fi = m.functions.get('_keygen')
+    if fi is None:
+        raise AnalysisError('anchor vanished: klepto/_inspect.py::_keygen')
+    f = fi.node
+    if f.args.vararg is None or len(f.args.args) < 2:
+        raise AnalysisError('anchor vanished: _keygen(func, ignored, *args, **kwds)')
+    ign = f.args.args[1].arg
+    pos = set([f.args.vararg.arg])
+    spec_like = set([ign])
+    changed = True
+    while changed:
+        changed = False
+        for n in ast.walk(f):
+            if isinstance(n, ast.Assign) and len(n.targets) == 1 and isinstance(n.targets[0], ast.Name):
+                t = n.targets[0].id
+                v = n.value
+                base = v.value if isinstance(v, ast.Subscript) else v
+                if isinstance(base, ast.Call) and len(base.args) == 1 and not base.keywords and isinstance(base.func, ast.Name) and base.func.id in ('copy', 'tuple', 'list'):
+                    base = base.args[0]      # copy(args), tuple(args), list(args)
+                if isinstance(base, ast.Name) and base.id in pos and t not in pos:
+                    pos.add(t)
+                    changed = True
+                if t not in spec_like and any(isinstance(x, ast.Name) and x.id in spec_like for x in ast.walk(v)) and \
+                        isinstance(v, (ast.Call, ast.SetComp, ast.ListComp, ast.GeneratorExp, ast.List, ast.Tuple, ast.Set, ast.BinOp)):
+                    spec_like.add(t)
+                    changed = True
+    parent = {}
+    for n in ast.walk(f):
+        for c in ast.iter_child_nodes(n):
+            parent[c] = n
+
+    def conjuncts(test):
+        if isinstance(test, ast.BoolOp) and isinstance(test.op, ast.And):
+            out = []
+            for v in test.values:
+                out.extend(conjuncts(v))
+            return out
+        return [test]
+
+    def selects_first(c):
+        if isinstance(c, ast.BoolOp) and isinstance(c.op, ast.Or):
+            return all(selects_first(v) for v in c.values)      # every alternative selects the first parameter (by name or by index)
+        if not (isinstance(c, ast.Compare) and len(c.ops) == 1 and isinstance(c.ops[0], ast.In)):
+            return False
+        l, r = c.left, c.comparators[0]
+        first = (isinstance(l, ast.Subscript) and isinstance(l.slice, ast.Constant) and l.slice.value == 0) or (isinstance(l, ast.Constant) and l.value == 0 and type(l.value) is int)
+        return first and isinstance(r, ast.Name) and r.id in spec_like
+    n = 0
+    for st in ast.walk(f):
+        if not (isinstance(st, ast.Assign) and len(st.targets) == 1 and isinstance(st.targets[0], ast.Name) and st.targets[0].id in pos):
+            continue
+        v = st.value
+        if not (isinstance(v, ast.Subscript) and isinstance(v.value, ast.Name) and v.value.id in pos and isinstance(v.slice, ast.Slice)
+                and isinstance(v.slice.lower, ast.Constant) and v.slice.lower.value == 1 and v.slice.upper is None):
+            continue
+        n += 1
+        guards = []
+        cur = st
+        while cur in parent and cur is not f:
+            p = parent[cur]
+            if isinstance(p, ast.If) and cur in p.body:
+                guards.extend(conjuncts(p.test))
+            elif isinstance(p, ast.If) and cur in p.orelse:
+                guards.append(None)      # reached through a negated test: nothing is known positively
+            cur = p
+        ok = any(g is not None and selects_first(g) for g in guards)
+        ctx.ob('G-VAL', '_keygen: the head of the positional arguments is dropped only when the first parameter itself is ignored', ok)
+        if not ok:
+            ctx.fail('G-VAL', fi.qual, 'first positional argument dropped without its own parameter being ignored',
+                     '_keygen cuts the first positional argument out of the key under `%s`: no conjunct of that condition says that the first parameter '
+                     '(its name or index 0) is in the ignore specification, so an argument the specification does not select can vanish from the key - '
+                     'calls that differ only in it are answered from one entry' % ' and '.join(unparse(g)[:60] for g in guards if g is not None),
+                     '%s:%d' % (m.rel, st.lineno))
+    if not n:
+        ctx.note('G-VAL (self drop): _keygen drops no leading positional argument; nothing to check')
